@@ -13,7 +13,7 @@ MKS = 'gym_gridverse.representations.state_representations:make_state_representa
 MKO = 'gym_gridverse.representations.observation_representations:make_observation_representation'
 
 ASPACE = ('new', 'gym_gridverse.spaces:ActionSpace', [('list', 'Action', 8)])
-INNER = ('object', {'action_space': ASPACE, 'state_space': 'Token', 'observation_space': 'Token'})
+INNER = ('object', {'action_space': ASPACE, 'state_space': 'Token', 'observation_space': 'Token', 'set_seed': ('fn', 'None')})
 # the objects are built by the real constructors (fields added to the classes later get their constructor
 # values); a representation only needs a `.space`, the empty dictionary of per-key spaces
 REPSP = ('object', {'space': ('dict', {})})
@@ -154,3 +154,32 @@ def gym_reads_follow_reset_and_step(outer_env, action):
               and t[0] is ghost_result(OSTATE, last_call(OSTATE)) and ghost_seq(OSTEP, 1) < ghost_seq(OSTATE, last_call(OSTATE))
               and t[3]['observation'] is ghost_result(OOBS, last_call(OOBS))
               and ghost_seq(OSTEP, 1) < ghost_seq(OOBS, last_call(OOBS)))
+
+
+# ------------------------------------------------------------------------- reads and seeding
+@contract(target=GM + 'GymEnvironment.state', args={'self': GYM}, stubs={OSTATE: 'Token'}, props=['C20'])
+def gym_state(self):
+    ensures('the-outer-environment-state', lambda: returned() and ghost_calls(OSTATE) == 1
+            and ghost_arg(OSTATE, 0, 0) is self.outer_env and result() is ghost_result(OSTATE, 0))
+
+
+@contract(target=GM + 'GymEnvironment.observation', args={'self': GYM}, stubs={OOBS: 'Token'}, props=['C20'])
+def gym_observation(self):
+    ensures('the-outer-environment-observation', lambda: returned() and ghost_calls(OOBS) == 1
+            and ghost_arg(OOBS, 0, 0) is self.outer_env and result() is ghost_result(OOBS, 0))
+
+
+@contract(target=GM + 'GymStateWrapper.observation', args={'self': WRAP}, stubs={GSTATE: 'Token'}, props=['C20'])
+def wrapper_observation(self):
+    ensures('the-wrapped-environment-state', lambda: returned() and ghost_calls(GSTATE) == 1
+            and ghost_arg(GSTATE, 0, 0) is self.env and result() is ghost_result(GSTATE, 0))
+
+
+# native=False: setup.py pins gym<=0.21.0, whose seeding.create_seed(seed) returns an explicit seed unchanged (that is the
+# modelled API); the sandbox has gym 0.26.2, where create_seed no longer exists and the real method raises AttributeError
+@contract(target=GM + 'GymEnvironment.seed', args={'self': GYM, 'seed': 'nat'}, props=['C20', 'C02'], native=False)
+def gym_seed(self, seed):
+    inner = self.outer_env.inner_env
+    ensures('seeds-the-inner-environment-with-the-reported-seed', lambda: returned() and len(result()) == 1
+            and ghost_calls(inner.set_seed) == 1 and ghost_arg(inner.set_seed, 0, 0) == result()[0])
+    ensures('an-explicit-seed-is-used-as-given', lambda: result()[0] == seed)
